@@ -586,7 +586,9 @@ func postprocessParsed(lookup objLookup) {
 	// - check that multiple occurrences with same name but different host
 	//   all use the same ldap-attribute-map
 	// - replace multiple occurrences of this line by one line
-	for name, l := range lookup["aaa-server"] {
+	m := lookup["aaa-server"]
+	for _, name := range slices.Sorted(maps.Keys(m)) {
+		l := m[name]
 		ldapMap := " " // invalid name
 		if !strings.HasSuffix(l[0].parsed, "protocol ldap") {
 			continue
